@@ -2093,12 +2093,26 @@ class Circuit(Unitary, StateVectorMap, Collection[Operation]):
 
         region = region.shift_left(len(idle_cycles))
 
+        # Cycles that held only moved gates are idle now; remove them too
+        vacated = [
+            cycle_index
+            for cycle_index in range(region.min_cycle, region.max_min_cycle)
+            if self._is_cycle_idle(cycle_index)
+        ]
+        for cycle_index in reversed(vacated):
+            self.pop_cycle(cycle_index)
+
         # Prep output
         region = CircuitRegion({
-            qudit_index: (region.min_cycle, region[qudit_index][1])
+            qudit_index: (
+                region.min_cycle,
+                region[qudit_index][1] - sum(
+                    1 for v in vacated if v < region[qudit_index][1]
+                ),
+            )
             for qudit_index in region
         })
-        net_new_cycles = shadow_length - len(idle_cycles)
+        net_new_cycles = shadow_length - len(idle_cycles) - len(vacated)
         shadow_region = CircuitRegion({
             qudit_index: (shadow_start, shadow_map[qudit_index])
             for qudit_index in shadow_qudits
